@@ -83,6 +83,18 @@ def _mk_corpus():
     ctl("scale/deep-parens", "deep_parens.c", "int x = " + "(" * 20000 + "1" + ")" * 20000 + ";\n")
     ctl("scale/deep-namespaces", "deep_ns.h", "".join("namespace n%d {\n" % i for i in range(1200)) + "int z;\n" + "}\n" * 1200, ["-D__cplusplus"])
     ctl("scale/nested-if", "nested_if.c", "#if 1\n" * 5000 + "int deep;\n" + "#endif\n" * 5000)
+    # the project's own headers (C and C++ idioms nobody wrote for the occasion): fault-free and a handful of truncations,
+    # every job, with the other source directories on the include path
+    srcdirs = [os.path.join(repo, "src", d) for d in ("interrogatedb", "dtoolutil", "dtoolbase", "cppparser", "interrogate", "prc")]
+    srcdirs = [d for d in srcdirs if os.path.isdir(d)]
+    incs = ["-I" + d for d in srcdirs]
+    for d in srcdirs:
+        for fn in sorted(os.listdir(d)):
+            if fn.endswith(".h"):
+                data = rd(os.path.join(d, fn))
+                if data:
+                    add("own/%s/%s" % (os.path.basename(d), fn), {fn: data}, fn, fn, ["-D__cplusplus"] + incs, ["pf", "ig", "igc", "ign"])
+                    ents[-1]["control"] = True
     pi = os.path.join(repo, "parser-inc")
     for root, dirs, files in sorted(os.walk(pi)):
         dirs.sort()
